@@ -187,6 +187,9 @@ def equivalent_forms(atom, outcome):
     elif atom[0] == "call" and len(atom) >= 4:
         n = atom[1]
         base = strip_generics(n)
+        for (x, y) in (("::is_some", "::is_none"), ("::is_none", "::is_some"), ("::is_ok", "::is_err"), ("::is_err", "::is_ok")):
+            if base.endswith(x):
+                out.append((("call", n[:n.rfind("::")] + y) + tuple(atom[2:]), not outcome))
         if base.endswith("::eq") or base.endswith("::ne"):
             other = n[:n.rfind("::")] + ("::ne" if base.endswith("::eq") else "::eq")
             out.append((("call", other) + tuple(atom[2:]), not outcome))
@@ -312,13 +315,24 @@ def guard_edges(P, fn, pred):
         if fn.term(b)["k"] != "switch":
             continue
         for (tgt, atom, outcome) in switch_edges(P, fn, b):
-            for (a2, o2) in equivalent_forms(atom, outcome):
-                try:
-                    if pred(a2, o2, b):
-                        edges.add((b, tgt))
-                        break
-                except (IndexError, TypeError):
-                    continue
+            alts = atom[1] if atom[0] == "phi" and isinstance(outcome, bool) else (atom,)
+            # a flag that holds one of several tests (`let drop = if v4 { a.is_none() } else { b.is_none() }`): the edge is a
+            # guard when every test it may hold satisfies the predicate
+            ok_all = bool(alts)
+            for alt in alts:
+                hit = False
+                for (a2, o2) in equivalent_forms(alt, outcome):
+                    try:
+                        if pred(a2, o2, b):
+                            hit = True
+                            break
+                    except (IndexError, TypeError):
+                        continue
+                if not hit:
+                    ok_all = False
+                    break
+            if ok_all:
+                edges.add((b, tgt))
     return edges
 
 
